@@ -47,6 +47,16 @@ func Harness_C06_run() {
 	if withBuiltin {
 		batch = append(batch, &jmessage{ID: json.RawMessage("9"), M: "rpc.serverInfo", batch: true})
 	}
+	// a notification whose handler fails (its error is discarded, its slot must not be)
+	withNote := nondetBool("with-failing-notification")
+	if withNote {
+		mux["note"] = log.handler("note", nil, Errorf(Code(nondetInt32("notecode")), "notification failed"))
+		batch = append(batch, &jmessage{M: "note", batch: true})
+	}
+	nresp := len(batch)
+	if withNote {
+		nresp--
+	}
 	s := NewServer(mux, &ServerOptions{Concurrency: limit})
 	rec := &verifRecorder{}
 	s.ch = rec
@@ -58,7 +68,8 @@ func Harness_C06_run() {
 	quiesce()
 	vassert(log.maxRun <= limit, "C06: never more handlers executing than the Concurrency option allows")
 	// work conservation: with requests waiting, every slot is in use
-	// (the built-in handler does not block, so it may already be through)
+	// (the built-in and the notification handler do not block, so they may
+	// already be through)
 	vassert(log.running == limit, "C06: while dispatched requests wait, all slots are in use (work-conserving)")
 	vassert(!finished, "the reply waits for the handlers")
 	// cancel one call that is still waiting for a slot
@@ -89,7 +100,7 @@ func Harness_C06_run() {
 	vassert(len(rec.sent) == 1, "one reply for the batch")
 	out, _ := tokParse(rec.sent[0])
 	elems, _ := tokElems(out)
-	vassert(len(elems) == len(batch), "one response per call")
+	vassert(len(elems) == nresp, "one response per call")
 	er, hasErr := tokMember(elems[victim], "error")
 	vassert(hasErr, "C06: the cancelled waiter is answered with an error")
 	code, _ := tokMember(er, "code")
